@@ -64,6 +64,7 @@ type CaseC struct {
 	Ops    []SOp    `json:"ops"`
 	Final  []int    `json:"final"`  // order in which the slots still connected leave at the end
 	Abrupt []bool   `json:"abrupt"` // per slot: TCP close without a close frame
+	Cfg    *FixCfg  `json:"cfg,omitempty"` // generated configuration / environment of the teamserver (config_test.go; XFF, WebHook, TZ only; nil: the default one)
 }
 
 const crashSig = "crash|Havoc/pkg/service.(*Service).ClientClose"
@@ -123,6 +124,20 @@ func genC(t *rapid.T) CaseC {
 	c.Final = rapid.Permutation([]int{0, 1, 2, 3, 4}[:c.Slots]).Draw(t, "final")
 	for i := 0; i < c.Slots; i++ {
 		c.Abrupt = append(c.Abrupt, rapid.Bool().Draw(t, "abrupt"))
+	}
+	// about half of the cases run in a non-default configuration / environment
+	if rapid.Bool().Draw(t, "fixture-cfg") {
+		c.Cfg = &FixCfg{}
+		for k, n := 0, 1+fairIndex(t, 2, "fixture-cfg-n"); k < n; k++ {
+			switch fairIndex(t, 4, "fixture-cfg-pick") {
+			case 0:
+				c.Cfg.XFF = true
+			case 1:
+				c.Cfg.WebHook = true
+			default:
+				c.Cfg.TZ = zonesA[fairIndex(t, len(zonesA), "tz")]
+			}
+		}
 	}
 	return c
 }
@@ -308,6 +323,9 @@ func checkC(c CaseC) *core.Violation {
 	defer fx.Close()
 	ts := fx.TS
 	col := &collector{known: svcx.KnownOpen("C16")}
+	if c.Cfg != nil {
+		defer applyFixCfg(fx, &FixCfg{XFF: c.Cfg.XFF, WebHook: c.Cfg.WebHook, TZ: c.Cfg.TZ})()
+	}
 
 	if err := ts.ListenerStart(handlers.LISTENER_EXTERNAL, handlers.ExternalConfig{Name: svcx.OpExt, Endpoint: "opext"}); err != nil {
 		return skip("op-ext", err)
@@ -913,6 +931,7 @@ func classifyC(c CaseC) core.Class {
 		}
 	}
 	cl.NonTrivial = next >= 2 && nonLast > 0
+	cl.Labels = append(cl.Labels, cfgLabelsFix(c.Cfg)...)
 	var ks []string
 	for k := range kinds {
 		ks = append(ks, k)
@@ -923,13 +942,16 @@ func classifyC(c CaseC) core.Class {
 		cl.Fingerprint += "|scale=" + scale
 		cl.NonTrivial = true
 	}
+	if c.Cfg != nil {
+		cl.Fingerprint += "|cfg=fixture"
+	}
 	return cl
 }
 
 func TestC16c(t *testing.T) {
 	core.Run(t, core.Spec[CaseC]{
 		Property: "C16", Sub: "c",
-		Rule: "histories over 2-5 connection slots of connect / register / disconnect operations: real websocket service connections (authenticated against the route registered by the real Service.Start) are opened at any point - also after earlier ones have left, a slot can be connected again and again, each time as a new connection - register agent types (pool of 3 names with distinct magic values), service-defined listener kinds (pool of 2) and External-C2 listeners/endpoints (pool of 4) in generated interleaved order - a taken name may be tried again by anybody - and leave (clean close frame or abrupt TCP close) at any point, the rest in a generated final order; after each registration the four registries (Service.Agents, Service.Listeners, ExC2 entries of ts.Listeners, ts.Endpoints) equal the first-come-first-served model; after each disconnect exactly the leaver's items are gone, the operator's own External listener is untouched, and every surviving agent type is relayed (agent request with its magic value through the operator endpoint and every surviving ExC2 endpoint, answered by the owning connection) every surviving ExC2 endpoint still answers, and every surviving listener kind still forwards a start request to its connection. SCALE: in one history of 40 one BULK operation with a threshold-adjacent count from {63,64,65,...,1023,1024,1025} is placed at a generated position: that many agent types or ExC2 listeners (endpoints of their own) registered by one connection through the same websocket messages (pool cut at 1025; thorough 4097 / 2049), or that many FURTHER service connections alive at once (real websockets, pool cut at 129, thorough 257) which register one agent type each and leave again most recently accepted first; the registries are compared with the model right after the bulk (for connections also when half and when all of them have left) and after every later step; with more than 16 survivors every surviving agent type is looked up but only the first and last four are relayed, through the first and last four surviving endpoints. Non-trivial (a bulk also counts): >=2 connections and a connection that is not the most recently accepted one leaves; distinct = (#connections made, non-last leaves 0/1/2+, connects after a leave 0/1/2+, late joiner leaving while an older connection holds an ExC2 listener 0/1, taken-name attempts 0/1/2+, connections with >=2 items 0/1/2+, kinds registered)",
+		Rule: "histories over 2-5 connection slots of connect / register / disconnect operations: real websocket service connections (authenticated against the route registered by the real Service.Start) are opened at any point - also after earlier ones have left, a slot can be connected again and again, each time as a new connection - register agent types (pool of 3 names with distinct magic values), service-defined listener kinds (pool of 2) and External-C2 listeners/endpoints (pool of 4) in generated interleaved order - a taken name may be tried again by anybody - and leave (clean close frame or abrupt TCP close) at any point, the rest in a generated final order; after each registration the four registries (Service.Agents, Service.Listeners, ExC2 entries of ts.Listeners, ts.Endpoints) equal the first-come-first-served model; after each disconnect exactly the leaver's items are gone, the operator's own External listener is untouched, and every surviving agent type is relayed (agent request with its magic value through the operator endpoint and every surviving ExC2 endpoint, answered by the owning connection) every surviving ExC2 endpoint still answers, and every surviving listener kind still forwards a start request to its connection. SCALE: in one history of 40 one BULK operation with a threshold-adjacent count from {63,64,65,...,1023,1024,1025} is placed at a generated position: that many agent types or ExC2 listeners (endpoints of their own) registered by one connection through the same websocket messages (pool cut at 1025; thorough 4097 / 2049), or that many FURTHER service connections alive at once (real websockets, pool cut at 129, thorough 257) which register one agent type each and leave again most recently accepted first; the registries are compared with the model right after the bulk (for connections also when half and when all of them have left) and after every later step; with more than 16 survivors every surviving agent type is looked up but only the first and last four are relayed, through the first and last four surviving endpoints. Non-trivial (a bulk also counts): >=2 connections and a connection that is not the most recently accepted one leaves; distinct = (#connections made, non-last leaves 0/1/2+, connects after a leave 0/1/2+, late joiner leaving while an older connection holds an ExC2 listener 0/1, taken-name attempts 0/1/2+, connections with >=2 items 0/1/2+, kinds registered) CONFIGURATION / ENVIRONMENT: about half of the cases run the teamserver in a generated non-default configuration - Demon.TrustXForwardedFor on, a WebHook block whose Discord URL is a local server of the case (every agent the relays register is announced there), time.Local +05:30 / -08:00 / +12:00 / +14:00 / -03:30 - under the same oracle; labels cfg:<option>=<class> / env:time-zone=<zone>",
 		Gen:  genC, Check: shrinkBudget(40*time.Second, checkC), Classify: classifyC,
 		Assumptions: []string{
 			"registrations and disconnects are applied one at a time (orders, not concurrent schedules): each step is followed by a request/reply barrier on the same connection or by the connection goroutine's exit",
